@@ -137,7 +137,7 @@ def limit_programs(quick):
     # ---- two-byte operands in use (values 256..), with the values read back: globals defined, read and ASSIGNED beyond
     # index 255, constants, function literals and builtins reached through high constant-pool indices, literals of 256+
     # elements indexed at the far end
-    for n in (300, 700) if quick else (257, 300, 700, 5000):
+    for n in (300, 700) if quick else (257, 300, 700, 4000):      # (a literal of more than 4096 elements cannot run: operand stack size)
         lets = " ".join("let g%d = %d;" % (i, i) for i in range(n))
         hi, mid = n - 1, n - 40
         src = ("let __o = []; %s g%d = 777000; g%d = g%d + 1000; fn bump() { g%d = g%d + 1; g%d } push(__o, [g%d, g%d, g%d, g%d, g0, g1, bump(), g%d]);"
@@ -149,9 +149,10 @@ def limit_programs(quick):
                % (consts, 900000 + n, 800000 + n, n - 1, (n - 1) & 0xFF, n))
         exp = "[%d, %d, 100255, 100256, %d, [%d, \"late\"], %d, %d]" % (100000 + n - 1, 100000 + ((n - 1) & 0xFF), n, 900000 + n, 800001 + n, len("tail-%d" % n))
         P.append(("wide-constants-in-use-%d" % n, src, ("obs", [exp]), "probe"))
-        pairs = ", ".join("%d: g" % i for i in range(n))
-        src = "let __o = []; let g = 5; let m = map {%s}; let arr = [%s]; push(__o, [len(m), m[%d], len(arr), arr[%d]]);" % (pairs, ", ".join("g" for _ in range(n)), n - 1, n - 1)
-        P.append(("wide-literals-in-use-%d" % n, src, ("obs", ["[%d, 5, %d, 5]" % (n, n)]), "probe"))
+        npairs = min(n, 1900)      # (keys and values of a map literal share the 4096-slot operand stack)
+        pairs = ", ".join("%d: g" % i for i in range(npairs))
+        src = "let __o = []; let g = 5; let m = map {%s}; let arr = [%s]; push(__o, [len(m), m[%d], len(arr), arr[%d]]);" % (pairs, ", ".join("g" for _ in range(n)), npairs - 1, n - 1)
+        P.append(("wide-literals-in-use-%d" % n, src, ("obs", ["[%d, 5, %d, 5]" % (npairs, n)]), "probe"))
     # ---- backward jumps (the closing jump of loop / while, continue) are emitted with their final target
     for n, far in ((15000, False), (16500, True)):
         body = " ".join("a;" for _ in range(n))
